@@ -15,7 +15,9 @@
 //! requested at all, no panic, no deadlock.
 //!
 //! Sub-checks: `dfs` (all schedules of small programs), `sched` (generated programs + generated
-//! schedules), `stress` (uncontrolled threads with a fetch that takes 30 ms, best effort).
+//! schedules), `stress` (uncontrolled threads with a fetch that takes 30 ms, best effort), `engine`
+//! (whole validation runs of the real engine with eight validation threads over CA forests whose
+//! publication points share few rsync modules; fetches counted per module, un-hooked).
 
 use std::collections::BTreeMap;
 use std::path::{Path, PathBuf};
@@ -526,12 +528,13 @@ fn dfs_programs(tier: Tier) -> Vec<Case> {
         c(&[&[0, 1], &[4]]),
         // two CAs of one RRDP repository; RRDP and rsync side by side
         c(&[&[6], &[7]]),
-        // different modules on one host; RRDP and rsync side by side
+        // different modules on one host
         c(&[&[0], &[2]]),
-        c(&[&[6], &[0]]),
     ];
     if tier == Tier::Thorough {
         v.push(c(&[&[0], &[0]]));
+        // RRDP and rsync side by side
+        v.push(c(&[&[6], &[0]]));
 
         v.push(c(&[&[0], &[3]]));
         v.push(c(&[&[0, 3], &[5, 1]]));
@@ -547,8 +550,9 @@ fn run_dfs(ctx: &Ctx, rep: &mut Report, world: &World) {
     // quick tier enumerates all schedules with at most two preemptions; thorough enumerates all
     let bound = ctx.tier.pick(2usize, usize::MAX);
     let bound_rrdp = std::env::var("RV_BOUND_RRDP").ok().and_then(|v| v.parse().ok()).unwrap_or(ctx.tier.pick(3usize, usize::MAX));
-    let cap = ctx.tier.pick(2_500usize, 60_000);
-    let cap_other = ctx.tier.pick(250usize, 60_000);
+    let cap = ctx.tier.pick(2_500usize, 4_000);
+    let cap_other = ctx.tier.pick(250usize, 4_000);
+    let cap_rrdp = ctx.tier.pick(2_500usize, 20_000);
     let mut per_program = Vec::new();
     let mut all_exhausted = true;
     let mut total = 0usize;
@@ -576,7 +580,7 @@ fn run_dfs(ctx: &Ctx, rep: &mut Report, world: &World) {
             }
             // the programs over one shared module are the subject; the others are capped lower
             let one_module = prog.threads.iter().flatten().map(|c| module_of(*c as usize % CAS.len())).collect::<std::collections::BTreeSet<_>>().len() == 1;
-            if n >= if one_module { cap } else { cap_other } {
+            if n >= if rrdp_only { cap_rrdp } else if one_module { cap } else { cap_other } {
                 break;
             }
         }
@@ -613,7 +617,7 @@ fn directed_known() -> Case {
 //------------ uncontrolled stress -----------------------------------------------------------------
 
 fn run_stress(ctx: &Ctx, rep: &mut Report) {
-    let rounds = ctx.tier.pick(12usize, 300);
+    let rounds = ctx.tier.pick(8usize, 150);
     let world = World::new(ctx, true);
     let nthreads = 8usize;
     let mut overlapped = 0usize;
@@ -670,6 +674,87 @@ fn run_stress(ctx: &Ctx, rep: &mut Report) {
     rep.extra.insert("stress_rounds_with_simultaneous_release".into(), serde_json::json!(overlapped));
 }
 
+//------------ whole-engine runs (uncontrolled) ----------------------------------------------------
+
+/// A CA forest whose publication points share few rsync modules, validated by the real engine with
+/// eight validation threads: `layout` gives the module of every CA (CA 0 is the trust anchor, CA i>0
+/// hangs below CA (i-1)/`fanout`).
+#[derive(Serialize, Deserialize, Clone, Debug)]
+pub struct EngineCase {
+    pub modules: Vec<u8>,
+    pub fanout: u8,
+    pub runs: u8,
+}
+
+fn engine_scenario(case: &EngineCase) -> crate::erpki::Scenario {
+    use crate::erpki::*;
+    let n = case.modules.len().clamp(2, 12);
+    let fanout = case.fanout.clamp(1, 8) as usize;
+    let version = |k: usize| Version {
+        number: 5,
+        this_off: -7200,
+        next_off: 86400,
+        crl_next_off: 86400,
+        ee_after_off: 86400 * 7,
+        objs: vec![Obj { kind: ObjKind::Roa { extra: (k % 2) as u8, maxlen_delta: 0, v6: false }, not_after: 86400 * 7, fault: None }],
+        fault: None,
+    };
+    let cas = (0..n).map(|i| Ca { parent: if i == 0 { None } else { Some((i - 1) / fanout) }, key: i, module: case.modules[i] as usize % 3, not_after: 86400 * 365, cert_fault: None, versions: vec![version(i)], extra_res: None }).collect::<Vec<_>>();
+    let steps = vec![Step { publish: vec![0; n], fail_modules: vec![], offline: false, stale: None }];
+    Scenario { cfg: Cfg { threads: 8, ..Default::default() }, cas, steps }
+}
+
+fn prop_engine(ctx: &Ctx, case: &EngineCase, info: &mut CaseInfo) -> Verdict {
+    use crate::erpki::*;
+    let sc = engine_scenario(case);
+    let scratch = ctx.scratch();
+    let mut world = World::new(&sc, scratch.path());
+    world.publish(&sc.steps[0]);
+    let used: std::collections::BTreeSet<usize> = sc.cas.iter().map(|c| c.module).collect();
+    let sharing = sc.cas.len() - used.len();
+    info.class(format!("engine: cas={} modules={}", sc.cas.len(), used.len()));
+    info.nt(sharing >= 2);
+    for r in 0..case.runs.clamp(1, 4) {
+        let _ = std::fs::remove_file(world.rsync_log());
+        match world.run(false, &empty_exceptions()) {
+            Ok(out) => {
+                if r == 0 && out.payload.is_empty() {
+                    return Verdict::Dropped("engine_run_produced_nothing".into());
+                }
+            }
+            Err(e) => return Verdict::Dropped(format!("engine_run_failed:{}", truncate(&e, 40))),
+        }
+        let mut counts: BTreeMap<String, usize> = BTreeMap::new();
+        for l in parse_rsync_log(&world.rsync_log()) {
+            *counts.entry(l.trim().to_string()).or_default() += 1;
+        }
+        if let Some((m, n)) = counts.iter().find(|(_, n)| **n > 1) {
+            // uncontrolled threads can run into the known window of the rsync collector
+            let key = if is_listed_known("C37", KNOWN_DOUBLE) { KNOWN_DOUBLE.to_string() } else { "C37/engine/double-fetch".to_string() };
+            return Verdict::fail(key, format!("engine run {} (8 validation threads, {} CAs in {} modules): module {} fetched {} times; all fetches {:?}", r, sc.cas.len(), used.len(), m, n, counts));
+        }
+        for m in &used {
+            let name = format!("{}/repo", host(*m));
+            if !counts.contains_key(&name) {
+                return Verdict::fail("C37/engine/never-fetched", format!("engine run {}: module {} holds publication points but was not fetched; fetches {:?}", r, name, counts));
+            }
+        }
+    }
+    Verdict::Pass
+}
+
+fn engine_strategy() -> impl Strategy<Value = EngineCase> {
+    (prop::collection::vec(0u8..3, 6..=12), 1u8..=8, 1u8..=2).prop_map(|(mut modules, fanout, runs)| {
+        // most CAs share module 0
+        for (i, m) in modules.iter_mut().enumerate() {
+            if i % 3 != 2 {
+                *m = 0;
+            }
+        }
+        EngineCase { modules, fanout, runs }
+    })
+}
+
 pub fn run(ctx: &Ctx, rep: &mut Report, replay: Option<&serde_json::Value>) {
     rep.rule("2-4 threads call the real collector::Run::repository(ca) + Repository::load_object for CA certificates (validated self-signed certificates issued by the harness) whose caRepository lies in one shared rsync module (3 CAs), another module on the same host (1) or another host (2); transport = fake rsync subprocess started by the unmodified RsyncCommand, its log counts invocations per module; before every run the server publishes a new version of every object (the local copy holds the previous one); schedules over the try-lock yield points of updated/running/module mutex/metrics: (dfs) every schedule of 5 two-thread programs (thorough +2, capped), (sched) generated programs 2-4 threads x 1-2 requests with generated choice strings, (stress) 8 uncontrolled threads against a fetch that takes 30 ms; oracle: per run every requested module fetched exactly once (log and rsync metrics), every object read right after repository() returned equals the server's current version; non-trivial = a second requester of a module makes its `running` entry between the fetcher's marker release and its completion record; distinct by program+schedule");
     rep.assume("one controlled thread runs at a time; the fetch itself (subprocess) runs inside one scheduling step because RsyncCommand::update contains no yield point, so 'reading during a fetch' is only exercised by the uncontrolled stress rounds");
@@ -684,6 +769,7 @@ pub fn run(ctx: &Ctx, rep: &mut Report, replay: Option<&serde_json::Value>) {
                 run_case(ctx, rep, "sched", &serde_json::from_value::<Case>(t.case).expect("case"), |c, i| prop_sched(&world, c, i));
             }
             "stress" => run_stress(ctx, rep),
+            "engine" => run_case(ctx, rep, "engine", &serde_json::from_value::<EngineCase>(t.case).expect("case"), |c, i| prop_engine(ctx, c, i)),
             other => panic!("unknown sub {}", other),
         }
         return;
@@ -703,14 +789,18 @@ pub fn run(ctx: &Ctx, rep: &mut Report, replay: Option<&serde_json::Value>) {
     if rep.violated() {
         return;
     }
-    run_prop(ctx, rep, "sched", ctx.tier.pick(150, 20_000), case_strategy(false), |c, i| prop_sched(&world, c, i));
+    run_prop(ctx, rep, "sched", ctx.tier.pick(80, 2_000), case_strategy(false), |c, i| prop_sched(&world, c, i));
     flush_excluded(rep);
     if rep.violated() {
         return;
     }
-    run_prop_salted(ctx, rep, "sched", "sched-rrdp", ctx.tier.pick(1_500, 60_000), case_strategy(true), |c, i| prop_sched(&world, c, i));
+    run_prop_salted(ctx, rep, "sched", "sched-rrdp", ctx.tier.pick(600, 20_000), case_strategy(true), |c, i| prop_sched(&world, c, i));
     if rep.violated() {
         return;
     }
     run_stress(ctx, rep);
+    if rep.violated() {
+        return;
+    }
+    run_prop(ctx, rep, "engine", ctx.tier.pick(6, 150), engine_strategy(), |c, i| prop_engine(ctx, c, i));
 }
